@@ -219,6 +219,7 @@ def generate(seed, tier, batch):
               "reset_between": r.random() < 0.25, "subset_state": r.random() < 0.3, "tape": seed, "foreign_first": r.random() < 0.25}
     if not crash and script["call"] == "seq" and nseg >= 2 and r.random() < 0.3:
         script["stranger_at"] = r.randrange(nseg - 1)
+    script["successor_alone"] = random.Random("c08s:%d" % seed).random() < 0.5
     if crash:
         script["crash"] = {"kfrac": round(r.random(), 4), "when": r.choice(["before", "after"]),
                            "exc": r.choice(["InjectedFault", "KeyboardInterrupt", "MemoryError"])}
@@ -659,8 +660,10 @@ def execute(script, w):
                     return
                 if not invalid_ops(script, w, simenv, eng, progs, models[-1], len(segs) - 1, feats, rejected, observe, res):
                     return
-            # subset state (only without deletions)
-            if script.get("subset_state") and not models[-1].deleted_ever and len(models[-1].alive()) > 1:
+            # subset state.  After a deletion the Gaussian and Fock simulators read `modes` as positions among the live modes (and label the
+            # result with the register indices of those modes); the bosonic one takes register indices - asked for only on registers without
+            # deletions there
+            if script.get("subset_state") and (not models[-1].deleted_ever or backend != "bosonic") and len(models[-1].alive()) > 1:
                 alive = models[-1].alive()
                 rs_ = random.Random(script["tape"] + 1)
                 sub = random.Random(script["tape"]).sample(alive, rs_.randint(1, len(alive)))
@@ -670,7 +673,7 @@ def execute(script, w):
                     sub = sorted(sub)
                 if sub == alive and len(alive) > 1:
                     sub = sub[1:] + sub[:1]
-                st = eng.backend.state(modes=sub)
+                st = eng.backend.state(modes=sub if backend == "bosonic" else [alive.index(i_) for i_ in sub])
                 if backend == "bosonic":
                     sub = sorted(sub)  # documented for this backend: "mode indices are sorted in ascending order"; the others: "in the given order"
                 names = [st.mode_names[i] for i in range(st.num_modes)]
@@ -697,6 +700,28 @@ def execute(script, w):
                     return
                 if not observe(eng, res, models[-1], progs, "after reset + rerun"):
                     return
+            # a successor program as the FIRST program of a computation (same engine after reset()): the simulator must be set up with the
+            # register the successor starts from, not with the one its ancestors started from.  Only when that register has no holes
+            # (a backend is initialised with modes 0..n-1) and the segment does no photon counting (whose snapshots belong to the full history)
+            if (script.get("successor_alone") and len(segs) >= 2 and not any(o_["op"] == "Del" for sg_ in segs[:-1] for o_ in sg_["ops"])
+                    and not any(o_["op"] == "MeasureFock" for o_ in segs[-1]["ops"])):
+                w.step("reset_then_successor_alone")
+                try:
+                    eng.reset()
+                    outcomes.rewind()
+                    live["queue"] = {}
+                    res_ = eng.run(progs[-1])
+                except Violation:
+                    return
+                except Exception as ex:  # noqa
+                    w.violation("valid-history-accepted", "successor-as-first-program", {"exc": type(ex).__name__, "msg": str(ex)[:300]}, feats)
+                    return
+                m_ = Model(len(models[-2].alive()))
+                for o_ in segs[-1]["ops"]:
+                    m_.apply(o_)
+                if not observe(eng, res_, m_, progs, "successor program run alone after reset()"):
+                    return
+                w.probes["successor_program_as_first_program"] += 1
             if has_newdel and (len(segs) >= 2 or rejected[0] > 0):
                 w.nontrivial.add(hashlib.sha256(json.dumps([backend, script["opts"], segs, script["call"]], sort_keys=True).encode()).hexdigest()[:16])
             return
@@ -1028,7 +1053,7 @@ def shrink(script):
     if script["invalid"]:
         for cand in ddmin_list(script["invalid"], 0):
             yield dict(script, invalid=cand)
-    for key in ("reset_between", "subset_state"):
+    for key in ("reset_between", "subset_state", "successor_alone"):
         if script.get(key):
             yield dict(script, **{key: False})
     if "stranger_at" in script:
